@@ -1308,22 +1308,28 @@ struct array : static_array<T, D, Alloc> {
 	}
 
 	auto operator=(array const& other) -> array& {
-		if(array::extensions() == other.extensions()) {
-			if(this == &other) {
-				return *this;
-			}  // required by cert-oop54-cpp
-			if constexpr(multi::allocator_traits<typename array::allocator_type>::propagate_on_container_copy_assignment::value) {
-				this->alloc() = other.alloc();
+		if(this == &other) {
+			return *this;
+		}  // required by cert-oop54-cpp
+		constexpr bool propagate = multi::allocator_traits<typename array::allocator_type>::propagate_on_container_copy_assignment::value;
+		bool keep_storage = (array::extensions() == other.extensions());
+		if constexpr(propagate) {
+			keep_storage = keep_storage && (this->alloc() == other.alloc());  // a block cannot outlive its allocator
+		}
+		if(keep_storage) {
+			if constexpr(propagate) {
+				this->alloc() = other.alloc();  // compares equal: the block stays valid
 			}
 			static_::operator=(other);
 		} else {
+			// the new value is built first, the old one is released (by its own allocator) only if that succeeded
+			array tmp(static_cast<typename array::ref const&>(other), propagate ? other.alloc() : this->alloc());
 			clear();
-			if constexpr(multi::allocator_traits<typename array::allocator_type>::propagate_on_container_copy_assignment::value) {
+			if constexpr(propagate) {
 				this->alloc() = other.alloc();
 			}
-			this->layout_mutable() = other.layout();
-			array::allocate();
-			array::uninitialized_copy_elements(other.data_elements());
+			this->base_            = std::exchange(tmp.base_, nullptr);
+			this->layout_mutable() = std::exchange(tmp.layout_mutable(), typename array::layout_type(typename array::extensions_type{}));
 		}
 		return *this;
 	}
